@@ -645,6 +645,8 @@ func c14Line(c *ctx, wn c14Win, paths [][][2]int, fn string) {
 	c.emit(e)
 }
 
+var c14Calls int
+
 func c14Poly(c *ctx, wn c14Win, poly [][][2]int, fn string, more ...[][][2]int) {
 	mk := func(poly [][][2]int) (orb.Polygon, bool) {
 		var p orb.Polygon
@@ -681,7 +683,17 @@ func c14Poly(c *ctx, wn c14Win, poly [][][2]int, fn string, more ...[][][2]int) 
 	setCurrent("tilecover."+fn, e)
 	var set maptile.Set
 	var err error
+	c14Calls++
 	site := guard(func() {
+		// history: every third cover follows covers that failed (an unclosed ring crossing tile rows, alone and as a hole
+		// of a polygon, reports uneven intersections) - what a failed call left behind must not reach this one
+		if c14Calls%3 == 0 {
+			open := orb.Ring{{-10, -10}, {10, 20}, {30, -5}}
+			tilecover.Ring(open, maptile.Zoom(wn.z%6+2))
+			if c14Calls%2 == 0 {
+				tilecover.Polygon(orb.Polygon{{{-20, -20}, {40, -20}, {40, 40}, {-20, 40}, {-20, -20}}, open}, maptile.Zoom(wn.z%6+2))
+			}
+		}
 		switch fn {
 		case "Polygon":
 			set, err = tilecover.Polygon(p, maptile.Zoom(wn.z))
@@ -706,4 +718,42 @@ func c14Poly(c *ctx, wn c14Win, poly [][][2]int, fn string, more ...[][][2]int) 
 		e["nt"] = 1
 	}
 	c.emit(e)
+	// the same shape as a member of a collection - a bare ring, a polygon, next to a point and a nested collection: the
+	// cover of the collection is the union of the covers of its members
+	if c14Calls%4 == 1 && err == nil && inside {
+		var col orb.Collection
+		switch fn {
+		case "Ring":
+			col = orb.Collection{p[0][0], p[0], orb.Collection{p[0]}}
+		case "MultiPolygon":
+			col = orb.Collection{mpoly, p[0][0]}
+		default:
+			col = orb.Collection{p, orb.LineString(p[0][:2]), orb.Collection{p[0]}}
+		}
+		var each [][][2]int
+		var cset maptile.Set
+		var cerr error
+		ok := true
+		site = guard(func() {
+			for _, m := range col {
+				s, err := tilecover.Geometry(m, maptile.Zoom(wn.z))
+				cv, in := wn.cover(s)
+				ok = ok && err == nil && in
+				each = append(each, cv)
+			}
+			cset, cerr = tilecover.Collection(col, maptile.Zoom(wn.z))
+		})
+		if site != "" {
+			c.emit(panicEvent("tilecover.Collection", site, e))
+			return
+		}
+		if !ok {
+			return // a member on its own already fails: reported by the member's own event
+		}
+		ccv, cin := wn.cover(cset)
+		if cerr != nil || !cin {
+			ccv = [][2]int{{-1, -1}} // the members are fine and the collection is not: never their union
+		}
+		c.emit(map[string]interface{}{"k": "coll", "z": wn.z, "each": each, "cover": ccv, "nt": 1})
+	}
 }
